@@ -128,6 +128,54 @@ func runC10WriteBoundary(db *redka.DB, rounds int) {
 	}
 }
 
+// c10PreparedCommands: a command object built in advance and run later.  A relative time-to-live
+// counts from the moment the write is made (Run), not from the moment the object was built:
+// right after a successful Run the key is there, and its expiry instant is Run time + ttl.
+func c10PreparedCommands(db *redka.DB) {
+	type prepared struct {
+		name string
+		run  func() error
+	}
+	const ttl = 300 * time.Millisecond
+	cmds := []prepared{
+		{"Str().SetWith(k, v).TTL(300ms)", func() error { _, err := db.Str().SetWith("pk0", "v").TTL(ttl).Run(); return err }},
+	}
+	// built now ...
+	c1 := db.Str().SetWith("pk1", "v").TTL(ttl)
+	c2 := db.Str().SetWith("pk2", "v").IfNotExists().TTL(ttl)
+	c3 := db.Str().SetWith("pk3", "v").KeepTTL().TTL(ttl)
+	cmds = append(cmds,
+		prepared{"a Str().SetWith(k, v).TTL(300ms) object built 450 ms before Run", func() error { _, err := c1.Run(); return err }},
+		prepared{"a Str().SetWith(k, v).IfNotExists().TTL(300ms) object built 450 ms before Run", func() error { _, err := c2.Run(); return err }},
+		prepared{"a Str().SetWith(k, v).KeepTTL().TTL(300ms) object built 450 ms before Run", func() error { _, err := c3.Run(); return err }},
+	)
+	// ... run later
+	time.Sleep(450 * time.Millisecond)
+	for i, c := range cmds {
+		key := fmt.Sprintf("pk%d", i)
+		t0 := time.Now().UnixMilli()
+		err := c.run()
+		t1 := time.Now().UnixMilli()
+		sum.Cases++
+		count("prepared_commands")
+		if err != nil {
+			fail("harness", c.name+": "+err.Error(), nil)
+			return
+		}
+		k, gerr := db.Key().Get(key)
+		if time.Now().UnixMilli() < t0+ttl.Milliseconds()-20 {
+			if gerr != nil {
+				fail("c10-live-key-missing", fmt.Sprintf("%s succeeded, and %d ms later the key is not there (%v): the time-to-live was counted from when the object was built", c.name, time.Now().UnixMilli()-t1, gerr), nil)
+				return
+			}
+		}
+		if gerr == nil && k.ETime != nil && (*k.ETime < t0+ttl.Milliseconds() || *k.ETime > t1+ttl.Milliseconds()) {
+			fail("c10-expiry-instant", fmt.Sprintf("%s ran between %d and %d: the key's expiry instant %d is not Run time + 300 ms", c.name, t0, t1, *k.ETime), nil)
+			return
+		}
+	}
+}
+
 func runC10Boundary(seed int64, n int) {
 	x, err := hx.OpenMem("c10b")
 	if err != nil {
@@ -136,6 +184,13 @@ func runC10Boundary(seed int64, n int) {
 	}
 	defer x.Close()
 	db := x.DB
+	if xp, err := hx.OpenMem("c10p"); err == nil { // (its own database: the probes below look at whole listings)
+		c10PreparedCommands(xp.DB)
+		xp.Close()
+	}
+	if len(sum.Failures) > 0 {
+		return
+	}
 	rounds := 1 + n/40
 	for round := 0; round < rounds && len(sum.Failures) == 0; round++ {
 		for _, p := range probes {
